@@ -14,7 +14,6 @@
 -/
 import QV.Proofs.ServerZone
 import QV.Proofs.ServerContext
-import QV.Proofs.WriterV0
 
 namespace QV.ServerSafety
 open QV QV.Writer QV.Server
@@ -55,32 +54,14 @@ theorem hintOK_hv {s : State} (v : Option HV) {hint : Hint} {n : WName} (h : Hin
   | explicit p => exact fun hp => W.Den_hv _ _ _ _ (h hp)
   | none => trivial
 
-/-- `add_*_rrset(.., None)`: afterwards `MostRecentOwner` is a valid hint for the owner -/
-theorem safe_rrset (sec : RrSection) (hint : Hint) (owner : WName) (ty cls ttl : Nat)
-    (rds : List (List UInt8)) (s : State) (hi : W.I s) (hwf : owner.WF)
-    (hh : HintOK W.Den s hint owner) (hne : rds ≠ []) :
-    Safe W (addRrsetOp sec hint owner ty cls ttl rds) s
-      (fun _ s' => HintOK W.Den s' .mostRecentOwner owner) := by
-  obtain ⟨h1, h2, h3⟩ := W.call (.addRrset sec hint owner ty cls ttl rds) s hi ⟨hwf, hh⟩
-  exact ⟨h1, h2, h3, fun a ha =>
-    (W.addRrset_post sec hint owner ty cls ttl rds s hi hwf hh hne (by cases a; exact ha)).1⟩
-
-/-- `add_*_rr`: afterwards `MostRecentNameInRdata` is a valid hint for the last name in the RDATA -/
-theorem safe_rr (sec : RrSection) (hint : Hint) (owner : WName) (ty cls ttl : Nat)
-    (rd : List UInt8) (s : State) (hi : W.I s) (hwf : owner.WF) (hh : HintOK W.Den s hint owner) :
-    Safe W (addRrOp sec hint owner ty cls ttl rd) s
-      (fun _ s' => ∀ n, (rdataNames cls ty rd).getLast? = some n →
-        HintOK W.Den s' .mostRecentNameInRdata n) := by
-  obtain ⟨h1, h2, h3⟩ := W.call (.addRr sec hint owner ty cls ttl rd) s hi ⟨hwf, hh⟩
-  exact ⟨h1, h2, h3, fun a ha =>
-    (W.addRr_post sec hint owner ty cls ttl rd s hi hwf hh (by cases a; exact ha)).2⟩
-
-/-- `add_*_rrset(.., Some(&mut hint_pointer_vec))` with a fresh vector -/
+/-- `add_*_rrset(.., Some(&mut hint_pointer_vec))` with a fresh vector: afterwards the vector's
+    entries are valid anchors of the names inside the RDATAs and `MostRecentOwner` is a valid hint
+    for the owner -/
 theorem safe_rrset_hv (sec : RrSection) (hint : Hint) (owner : WName) (ty cls ttl : Nat)
     (rds : List (List UInt8)) (s : State) (hi : W.I s) (hwf : owner.WF)
     (hh : HintOK W.Den s hint owner) (hne : rds ≠ []) :
     Safe W (Server.withHv [] (addRrsetOp sec hint owner ty cls ttl rds)) s
-      (fun v s' => HvOK W s' v (rds.flatMap (rdataNames cls ty))) := by
+      (fun v s' => HvOK W s' v (rds.flatMap (rdataNames cls ty)) ∧ HintOK W.Den s' .mostRecentOwner owner) := by
   have hi0 := W.I_hv s (some []) hi
   have hh0 := hintOK_hv W (some []) hh
   obtain ⟨h1, h2, h3⟩ := W.call (.addRrset sec hint owner ty cls ttl rds) _ hi0 ⟨hwf, hh0⟩
@@ -99,6 +80,7 @@ theorem safe_rrset_hv (sec : RrSection) (hint : Hint) (owner : WName) (ty cls tt
   | ok u =>
     refine ⟨by simp, W.I_hv _ _ h2, hm, fun a ha => ?_⟩
     cases ha
+    refine ⟨?_, hintOK_hv W none (hpost rfl).1⟩
     have hp := (hpost rfl).2 rfl
     intro i p hv
     cases hs : s1.hv with
@@ -108,9 +90,87 @@ theorem safe_rrset_hv (sec : RrSection) (hint : Hint) (owner : WName) (ty cls tt
       obtain ⟨n, hn, hd⟩ := hp v hs i p hv
       exact ⟨n, hn, W.Den_hv _ _ _ _ hd⟩
 
+/-- `add_*_rr(.., None)`: afterwards `MostRecentNameInRdata` is a valid hint for the last name in
+    the RDATA -/
+theorem safe_rr_hv (sec : RrSection) (hint : Hint) (owner : WName) (ty cls ttl : Nat)
+    (rd : List UInt8) (s : State) (hi : W.I s) (hwf : owner.WF) (hh : HintOK W.Den s hint owner) :
+    Safe W (Server.withHv [] (addRrOp sec hint owner ty cls ttl rd)) s
+      (fun _ s' => ∀ n, (rdataNames cls ty rd).getLast? = some n →
+        HintOK W.Den s' .mostRecentNameInRdata n) := by
+  have hi0 := W.I_hv s (some []) hi
+  have hh0 := hintOK_hv W (some []) hh
+  obtain ⟨h1, h2, h3⟩ := W.call (.addRr sec hint owner ty cls ttl rd) _ hi0 ⟨hwf, hh0⟩
+  have hpost := W.addRr_post sec hint owner ty cls ttl rd _ hi0 hwf hh0
+  have e : (Call.addRr sec hint owner ty cls ttl rd).run = addRrOp sec hint owner ty cls ttl rd := rfl
+  rw [e] at h1 h2 h3
+  unfold Safe
+  dsimp only [Server.withHv]
+  generalize addRrOp sec hint owner ty cls ttl rd { s with hv := some [] } = res at h1 h2 h3 hpost
+  obtain ⟨o, s1⟩ := res
+  have hm : Mono W.Den s { s1 with hv := none } :=
+    ⟨h3.1, fun p n hd => W.Den_hv _ _ _ _ (h3.2 p n (W.Den_hv _ _ _ _ hd))⟩
+  cases o with
+  | panic => exact absurd rfl h1
+  | err e => exact ⟨by simp, W.I_hv _ _ h2, hm, fun a ha => by cases ha⟩
+  | ok u =>
+    refine ⟨by simp, W.I_hv _ _ h2, hm, fun a ha n hn => ?_⟩
+    exact hintOK_hv W none ((hpost rfl).2 n hn)
+
+/-- the logged `add_*_rrset` -/
+theorem safe_addRrs (optional : Bool) (sec : RrSection) (hint : Hint) (owner : WName) (ty cls ttl : Nat)
+    (rds : List (List UInt8)) (s : PS) (hi : W.I s.w) (hwf : owner.WF)
+    (hh : HintOK W.Den s.w hint owner) (hne : rds ≠ []) :
+    SafeP W (PM.addRrs optional sec hint owner ty cls ttl rds) s
+      (fun o w' => ∀ hv, o = some hv →
+        HvOK W w' hv (rds.flatMap (rdataNames cls ty)) ∧ HintOK W.Den w' .mostRecentOwner owner) :=
+  safe_addCall W _ (safe_rrset_hv W sec hint owner ty cls ttl rds s.w hi hwf hh hne)
+
+/-- the logged `add_*_rr` -/
+theorem safe_addRr1 (sec : RrSection) (hint : Hint) (owner : WName) (ty cls ttl : Nat)
+    (rd : List UInt8) (s : PS) (hi : W.I s.w) (hwf : owner.WF) (hh : HintOK W.Den s.w hint owner) :
+    SafeP W (PM.addRr1 sec hint owner ty cls ttl rd) s
+      (fun _ w' => ∀ n, (rdataNames cls ty rd).getLast? = some n →
+        HintOK W.Den w' .mostRecentNameInRdata n) := by
+  unfold PM.addRr1
+  have h := safe_addCall W ⟨sec, owner, ty, cls, ttl, [rd], false, .ok ()⟩
+    (safe_rr_hv W sec hint owner ty cls ttl rd s.w hi hwf hh)
+  -- the call is not optional: on success it was made
+  obtain ⟨h1, h2, h3, h4⟩ := h
+  unfold SafeP
+  rw [PM.bind_apply]
+  generalize hres : PM.addCall ⟨sec, owner, ty, cls, ttl, [rd], false, .ok ()⟩
+    (Server.withHv [] (addRrOp sec hint owner ty cls ttl rd)) s = res at h1 h2 h3 h4
+  obtain ⟨o, s'⟩ := res
+  cases o with
+  | panic => exact absurd rfl h1
+  | err e => exact ⟨by simp, h2, h3, fun a ha => by cases ha⟩
+  | ok ov =>
+    refine ⟨by simp [pure, PM.pure], h2, h3, fun a _ => ?_⟩
+    cases ov with
+    | some hv => exact h4 (some hv) rfl hv rfl
+    | none =>
+      -- `None` only for optional calls
+      exfalso
+      unfold PM.addCall at hres
+      generalize Server.withHv [] (addRrOp sec hint owner ty cls ttl rd) s.w = r at hres
+      obtain ⟨o2, w2⟩ := r
+      cases o2 with
+      | ok x => simp at hres
+      | err e => simp at hres
+      | panic => simp at hres
+
+theorem safe_hdr_setAa (b : Bool) (s : PS) (hi : W.I s.w) : SafeP W (PM.setAa b) s (fun _ _ => True) :=
+  safe_hdrOp W _ (safe_setAa W b s.w hi)
+
+theorem safe_hdr_setRcode (v : Nat) (s : PS) (hi : W.I s.w) : SafeP W (PM.setRcode v) s (fun _ _ => True) :=
+  safe_hdrOp W _ (safe_setRcode W v s.w hi)
+
+theorem safe_hdr_setTc (b : Bool) (s : PS) (hi : W.I s.w) : SafeP W (PM.setTc b) s (fun _ _ => True) :=
+  safe_hdrOp W _ (safe_setTc W b s.w hi)
+
 /-! ### `read_name_from_rdata` -/
 
-theorem readName_cases (rd : List UInt8) (start : Nat) (s : State) :
+theorem readName_cases (rd : List UInt8) (start : Nat) (s : PS) :
     (∃ n, readNameFromRdata rd start s = (.ok n, s) ∧ n.WF ∧ ¬ start > rd.length ∧
       WName.parse (rd.drop start) = some (n, [])) ∨
     readNameFromRdata rd start s = (.err .servFail, s) := by
@@ -176,66 +236,56 @@ theorem lookupAddrs_cases (z : Zone.Zone) (hz : ZoneOK z) (name : NameL.Name) (s
     | nxDomain => right; exact ⟨_, rfl, fun _ _ _ h => by cases h⟩
     | wrongZone => right; exact ⟨_, rfl, fun _ _ _ h => by cases h⟩
 
+theorem addAaaa_safe (z : Zone.Zone) (hint : Hint) (owner : WName) (optional : Bool)
+    (aaaa : Option Zone.Rrset) (haaaa : ∀ r, aaaa = some r → r.rdatas ≠ []) (s : PS) (hi : W.I s.w)
+    (hwf : owner.WF) (hh : HintOK W.Den s.w hint owner) :
+    SafeP W (addAaaa z hint owner optional aaaa) s (fun _ _ => True) := by
+  unfold addAaaa
+  split
+  · cases aaaa with
+    | none => exact safe_pure_PM W () s hi trivial
+    | some r =>
+      exact safe_bind_PM W (safe_addRrs W optional .additional hint owner _ _ _ _ s hi hwf hh (haaaa r rfl))
+        (fun _ s1 hi1 _ _ => safe_pure_PM W () s1 hi1 trivial)
+  · exact safe_pure_PM W () s hi trivial
+
 theorem addAdditionalAddresses_safe (z : Zone.Zone) (hz : ZoneOK z) (hint : Hint) (owner : WName)
-    (sbc : Bool) (s : State) (hi : W.I s) (hwf : owner.WF) (hh : HintOK W.Den s hint owner) :
-    Safe W (addAdditionalAddresses z hint owner sbc) s (fun _ _ => True) := by
+    (sbc optional : Bool) (s : PS) (hi : W.I s.w) (hwf : owner.WF) (hh : HintOK W.Den s.w hint owner) :
+    SafeP W (addAdditionalAddresses z hint owner sbc optional) s (fun _ _ => True) := by
+  unfold addAdditionalAddresses
   rcases lookupAddrs_cases z hz (fold owner) sbc (fold_wf owner hwf) with
     ⟨a, aaaa, sos, hl, ha, haaaa⟩ | ⟨x, hl, hx⟩
-  · -- found
-    have step1 : Safe W (match (generalizing := false) a with
-        | some r => do
-          addRrsetOp .additional hint owner Gen.T_A z.cls r.ttl r.rdatas
-          pure Hint.mostRecentOwner
-        | none => pure hint : M Hint) s (fun h s' => HintOK W.Den s' h owner) := by
-      cases a with
-      | none => exact safe_pure_M W hint s hi hh
-      | some r =>
-        exact safe_bind_M W (safe_rrset W .additional hint owner _ _ _ _ s hi hwf hh (ha r rfl))
-          (fun _ s1 hi1 _ hq => safe_pure_M W _ s1 hi1 hq)
-    have prog : Safe W (do
-        let h ← (match (generalizing := false) a with
-          | some r => do
-            addRrsetOp .additional hint owner Gen.T_A z.cls r.ttl r.rdatas
-            pure Hint.mostRecentOwner
-          | none => pure hint : M Hint)
-        if z.cls = Gen.CLASS_IN then
-          match aaaa with
-          | some r => addRrsetOp .additional h owner Gen.T_AAAA Gen.CLASS_IN r.ttl r.rdatas
-          | none => pure ()
-        else pure () : M Unit) s (fun _ _ => True) := by
-      refine safe_bind_M W step1 (fun h s1 hi1 _ hq => ?_)
-      split
-      · cases aaaa with
-        | none => exact safe_pure_M W () s1 hi1 (Q := fun _ _ => True) trivial
-        | some r =>
-          exact (safe_rrset W .additional h owner _ _ _ _ s1 hi1 hwf hq (haaaa r rfl)).weaken W
-            (fun _ _ _ _ _ => trivial)
-      · exact safe_pure_M W () s1 hi1 (Q := fun _ _ => True) trivial
-    refine safe_congr W ?_ prog
-    simp only [addAdditionalAddresses, hl]
-    all_goals (try rfl)
-  · have e : addAdditionalAddresses z hint owner sbc s = (.ok (), s) := by
-      simp only [addAdditionalAddresses, hl]
-      all_goals (cases x <;> first | rfl | exact absurd rfl (hx _ _ _))
-    unfold Safe; rw [e]
-    exact ⟨by simp, hi, Mono.refl _ _, fun _ _ => trivial⟩
+  · rw [hl]
+    cases a with
+    | none => exact addAaaa_safe W z hint owner optional aaaa haaaa s hi hwf hh
+    | some r =>
+      refine safe_bind_PM W (safe_addRrs W optional .additional hint owner _ _ _ _ s hi hwf hh (ha r rfl))
+        (fun o s1 hi1 _ hq => ?_)
+      cases o with
+      | none => exact safe_pure_PM W () s1 hi1 trivial
+      | some hv => exact addAaaa_safe W z .mostRecentOwner owner optional aaaa haaaa s1 hi1 hwf (hq hv rfl).2
+  · rw [hl]
+    cases x with
+    | found a b c => exact absurd rfl (hx a b c)
+    | referral c ns => exact safe_pure_PM W () s hi trivial
+    | nxDomain => exact safe_pure_PM W () s hi trivial
+    | wrongZone => exact safe_pure_PM W () s hi trivial
 
 /-! ### `do_additional_section_processing` -/
 
 theorem additionalLoop_safe (z : Zone.Zone) (hz : ZoneOK z) (start : Nat) (cs : List CompType)
     (hshape : Shape cs start) (hvo : Option HV) :
-    ∀ (rest pre : List (List UInt8)) (s : State), W.I s →
+    ∀ (rest pre : List (List UInt8)) (s : PS), W.I s.w →
       (cs ≠ [] → ∀ rd ∈ pre, ∃ n, compNames cs rd = [n]) →
-      (∀ v, hvo = some v → HvOK W s v ((pre ++ rest).flatMap (compNames cs))) →
-      Safe W (additionalLoop z start hvo rest pre.length) s (fun _ _ => True) := by
+      (∀ v, hvo = some v → HvOK W s.w v ((pre ++ rest).flatMap (compNames cs))) →
+      SafeP W (additionalLoop z start hvo rest pre.length) s (fun _ _ => True) := by
   intro rest
   induction rest with
   | nil => intro pre s hi _ _; exact safe_pure_PM W () s hi trivial
   | cons rd rest ih =>
     intro pre s hi hpre hhv
     rcases readName_cases rd start s with ⟨n, hr, hwf, hs, hp⟩ | hr
-    · -- the hint accompanying this name
-      have hint_ok : HintOK W.Den s (match (generalizing := false) hvo with | some v => hintFrom v pre.length | none => Hint.none) n := by
+    · have hint_ok : HintOK W.Den s.w (match (generalizing := false) hvo with | some v => hintFrom v pre.length | none => Hint.none) n := by
         cases hvo with
         | none => trivial
         | some v =>
@@ -252,8 +302,8 @@ theorem additionalLoop_safe (z : Zone.Zone) (hz : ZoneOK z) (start : Nat) (cs : 
             rw [List.flatMap_append, List.flatMap_cons, hc, List.getElem?_append_right (by omega), hl] at hn'
             simp at hn'
             exact hn'.symm
-      have hrec : ∀ s', W.I s' → Mono W.Den s s' →
-          Safe W (additionalLoop z start hvo rest (pre.length + 1)) s' (fun _ _ => True) := by
+      have hrec : ∀ s', W.I s'.w → Mono W.Den s.w s'.w →
+          SafeP W (additionalLoop z start hvo rest (pre.length + 1)) s' (fun _ _ => True) := by
         intro s' hi' hm
         have := ih (pre ++ [rd]) s' hi'
           (fun hcs x hx => by
@@ -264,55 +314,50 @@ theorem additionalLoop_safe (z : Zone.Zone) (hz : ZoneOK z) (start : Nat) (cs : 
             have := (hhv v hv).mono W hm
             simpa [List.append_assoc] using this)
         simpa using this
-      have prog : Safe W (do
-          executeAllowingTruncation (addAdditionalAddresses z
-            (match (generalizing := false) hvo with | some v => hintFrom v pre.length | none => Hint.none) n false)
+      have prog : SafeP W (do
+          addAdditionalAddresses z
+            (match (generalizing := false) hvo with | some v => hintFrom v pre.length | none => Hint.none) n false true
           additionalLoop z start hvo rest (pre.length + 1) : PM Unit) s (fun _ _ => True) :=
-        safe_bind_PM W (safe_executeAllowingTruncation W
-          (addAdditionalAddresses_safe W z hz _ n false s hi hwf hint_ok))
+        safe_bind_PM W (addAdditionalAddresses_safe W z hz _ n false true s hi hwf hint_ok)
           (fun _ s' hi' hm _ => hrec s' hi' hm)
-      refine safe_congr W ?_ prog
+      refine safeP_congr W ?_ prog
       simp only [additionalLoop, PM.bind_apply, hr]
       rfl
     · have e : additionalLoop z start hvo (rd :: rest) pre.length s = (.err .servFail, s) := by
         simp only [additionalLoop, PM.bind_apply, hr]
-      unfold Safe; rw [e]
+      unfold SafeP; rw [e]
       exact ⟨by simp, hi, Mono.refl _ _, fun _ h => by cases h⟩
 
 theorem shape_ns (cls ty : Nat) (h : ty = T "MB" ∨ ty = T "MD" ∨ ty = T "MF" ∨ ty = T "NS") :
-    V0.componentTypes cls ty = [.compressibleName] := by
+    componentTypes cls ty = [.compressibleName] := by
   have c : T "MB" = 7 ∧ T "MD" = 3 ∧ T "MF" = 4 ∧ T "NS" = 2 := by decide
   rw [c.1, c.2.1, c.2.2.1, c.2.2.2] at h
   rcases h with h | h | h | h <;> subst h <;>
-    simp [V0.componentTypes_arms]
+    simp [componentTypes, componentsTable, armMatches, Gen.typeConsts, List.lookup]
 
-theorem shape_mx (cls : Nat) : V0.componentTypes cls (T "MX") = [.fixedLen 2, .compressibleName] := by
+theorem shape_mx (cls : Nat) : componentTypes cls (T "MX") = [.fixedLen 2, .compressibleName] := by
   have : T "MX" = 15 := by decide
   rw [this]
-  simp [V0.componentTypes_arms]
+  simp [componentTypes, componentsTable, armMatches, Gen.typeConsts, List.lookup]
 
-theorem shape_srv (cls : Nat) : Shape (V0.componentTypes cls (T "SRV")) 6 := by
+theorem shape_srv (cls : Nat) : Shape (componentTypes cls (T "SRV")) 6 := by
   have : T "SRV" = 33 := by decide
   rw [this]
   by_cases h : cls = 1
   · right; right; right; subst h; decide
   · left
     have h' : ¬ 1 = cls := fun e => h e.symm
-    simp [V0.componentTypes_arms, h]
+    simp [componentTypes, componentsTable, armMatches, Gen.typeConsts, List.lookup, Gen.classConsts, h']
 
 theorem doAdditionalSectionProcessing_safe (z : Zone.Zone) (hz : ZoneOK z) (rrType : Nat)
-    (rrset : Zone.Rrset) (hvo : Option HV) (s : State) (hi : W.I s)
-    (hhv : ∀ v, hvo = some v → HvOK W s v (rrset.rdatas.flatMap (rdataNames z.cls rrType))) :
-    Safe W (doAdditionalSectionProcessing z rrType rrset hvo) s (fun _ _ => True) := by
+    (rrset : Zone.Rrset) (hvo : Option HV) (s : PS) (hi : W.I s.w)
+    (hhv : ∀ v, hvo = some v → HvOK W s.w v (rrset.rdatas.flatMap (rdataNames z.cls rrType))) :
+    SafeP W (doAdditionalSectionProcessing z rrType rrset hvo) s (fun _ _ => True) := by
   unfold doAdditionalSectionProcessing
-  have loop : ∀ start, Shape (V0.componentTypes z.cls rrType) start →
-      Safe W (additionalLoop z start hvo rrset.rdatas 0) s (fun _ _ => True) := fun start hs =>
+  have loop : ∀ start, Shape (componentTypes z.cls rrType) start →
+      SafeP W (additionalLoop z start hvo rrset.rdatas 0) s (fun _ _ => True) := fun start hs =>
     additionalLoop_safe W z hz start _ hs hvo rrset.rdatas [] s hi (fun _ _ h => by cases h)
-      (fun v hv => by
-        have := hhv v hv
-        rw [show rdataNames z.cls rrType = compNames (V0.componentTypes z.cls rrType) from
-          funext (rdataNames_v0 _ _)] at this
-        simpa using this)
+      (fun v hv => by have := hhv v hv; unfold rdataNames at this; simpa using this)
   split
   · exact safe_pure_PM W () s hi trivial
   · split
@@ -328,19 +373,18 @@ theorem doAdditionalSectionProcessing_safe (z : Zone.Zone) (hz : ZoneOK z) (rrTy
 
 /-! ### negative answers -/
 
-theorem readSoaMinimum_cases (rd : List UInt8) (s : State) :
+theorem readSoaMinimum_cases (rd : List UInt8) (s : PS) :
     (∃ v, readSoaMinimum rd s = (.ok v, s)) ∨ readSoaMinimum rd s = (.err .servFail, s) := by
   unfold readSoaMinimum
-  simp only
-  cases h1 : Wire.validateUncompressed rd.toArray false with
-  | panic => exact absurd h1 (validateUncompressed_no_panic _ _)
-  | err e => right; rfl
-  | ok mlen =>
+  cases h1 : WName.parse rd with
+  | none => right; rfl
+  | some v1 =>
+    obtain ⟨n1, r1⟩ := v1
     simp only
-    cases h2 : Wire.validateUncompressed (rd.toArray.extract mlen rd.toArray.size) false with
-    | panic => exact absurd h2 (validateUncompressed_no_panic _ _)
-    | err e => right; rfl
-    | ok rlen =>
+    cases h2 : WName.parse r1 with
+    | none => right; rfl
+    | some v2 =>
+      obtain ⟨n2, r2⟩ := v2
       simp only
       split
       · right; rfl
@@ -348,8 +392,8 @@ theorem readSoaMinimum_cases (rd : List UInt8) (s : State) :
         · left; exact ⟨_, rfl⟩
         · right; rfl
 
-theorem addNegativeCachingSoa_safe (z : Zone.Zone) (hz : ZoneOK z) (s : State) (hi : W.I s) :
-    Safe W (addNegativeCachingSoa z) s (fun _ _ => True) := by
+theorem addNegativeCachingSoa_safe (z : Zone.Zone) (hz : ZoneOK z) (s : PS) (hi : W.I s.w) :
+    SafeP W (addNegativeCachingSoa z) s (fun _ _ => True) := by
   unfold addNegativeCachingSoa
   cases Zone.soa z with
   | none => exact safe_fail_PM W _ s hi
@@ -360,13 +404,13 @@ theorem addNegativeCachingSoa_safe (z : Zone.Zone) (hz : ZoneOK z) (s : State) (
     | cons rd rest =>
       simp only
       rcases readSoaMinimum_cases rd s with ⟨v, hv⟩ | hv
-      · have prog : Safe W (PM.liftW (addRrOp .authority .none (unfold z.apex) (T "SOA") z.cls
-            (Nat.min (ttlFrom v) rrset.ttl) rd)) s (fun _ _ => True) :=
-          safe_liftW W (safe_call W (.addRr .authority .none (unfold z.apex) (T "SOA") z.cls _ rd) s hi
-            ⟨hz.apex_wf, trivial⟩)
-        refine safe_congr W ?_ prog
+      · have prog : SafeP W (PM.addRr1 .authority .none (unfold z.apex) (T "SOA") z.cls
+            (Nat.min (ttlFrom v) rrset.ttl) rd) s (fun _ _ => True) :=
+          (safe_addRr1 W .authority .none (unfold z.apex) (T "SOA") z.cls _ rd s hi hz.apex_wf trivial).weaken W
+            (fun _ _ _ _ _ => trivial)
+        refine safeP_congr W ?_ prog
         simp only [PM.bind_apply, hv]
-      · unfold Safe
+      · unfold SafeP
         have e : ∀ (k : Nat → PM Unit), (readSoaMinimum rd >>= k) s = (.err .servFail, s) := by
           intro k; simp only [PM.bind_apply, hv]
         rw [e]
@@ -389,7 +433,7 @@ theorem flatMap_singletons_get {α β : Type} (f : α → List β) (l : List α)
       obtain ⟨a', ha', hfa'⟩ := ih (fun x hx => h x (by simp [hx])) j hb
       exact ⟨a', by simpa using ha', hfa'⟩
 
-theorem classifyNs_cases (child : WName) : ∀ (rest pre : List (List UInt8)) (s : State),
+theorem classifyNs_cases (child : WName) : ∀ (rest pre : List (List UInt8)) (s : PS),
     (∃ g a, classifyNs child rest pre.length s = (.ok (g, a), s) ∧
       (∀ p ∈ g ++ a, p.2.WF ∧ ∃ rd, (pre ++ rest)[p.1]? = some rd ∧ WName.parse rd = some (p.2, [])) ∧
       (∀ rd ∈ rest, ∃ n, WName.parse rd = some (n, []))) ∨
@@ -441,59 +485,67 @@ theorem classifyNs_cases (child : WName) : ∀ (rest pre : List (List UInt8)) (s
     · right
       simp only [classifyNs, PM.bind_apply, hr]
 
-/-- a `for` loop over `(index, name)` pairs whose body is safe whenever `P` holds; `P` is stable
-    under the anchors' monotonicity -/
-theorem forM_safe (l : List (Nat × WName)) (f : Nat × WName → PM Unit) (P : State → Prop)
-    (hPm : ∀ s s', P s → Mono W.Den s s' → P s')
-    (hf : ∀ p ∈ l, ∀ s', W.I s' → P s' → Safe W (f p) s' (fun _ _ => True)) (s : State) (hi : W.I s)
-    (hP : P s) : Safe W (l.forM f) s (fun _ s' => P s') := by
-  induction l generalizing s with
-  | nil => show Safe W (pure ⟨⟩ : PM PUnit) s _; exact safe_pure_PM W _ s hi hP
+/-- the two `for (index, nsdname) in …` loops of `do_referral`: safe as long as the vector's entries
+    stay valid anchors (`P`, stable under the anchors' monotonicity) -/
+theorem glueLoop_safe (z : Zone.Zone) (hz : ZoneOK z) (hv : HV) (optional : Bool) (P : State → Prop)
+    (hPm : ∀ w w', P w → Mono W.Den w w' → P w') :
+    ∀ (l : List (Nat × WName)),
+      (∀ p ∈ l, ∀ w, P w → p.2.WF ∧ HintOK W.Den w (hintFrom hv p.1) p.2) →
+      ∀ (s : PS), W.I s.w → P s.w → SafeP W (glueLoop z hv optional l) s (fun _ w' => P w') := by
+  intro l
+  induction l with
+  | nil => intro _ s hi hP; exact safe_pure_PM W () s hi hP
   | cons p r ih =>
-    show Safe W (f p >>= fun _ => r.forM f) s _
-    exact safe_bind_PM W (hf p (by simp) s hi hP)
+    intro hf s hi hP
+    unfold glueLoop
+    obtain ⟨hwf, hh⟩ := hf p (by simp) s.w hP
+    exact safe_bind_PM W (addAdditionalAddresses_safe W z hz _ _ true optional s hi hwf hh)
       (fun _ s1 hi1 hm _ => ih (fun q hq => hf q (by simp [hq])) s1 hi1 (hPm _ _ hP hm))
 
 theorem doReferral_safe (z : Zone.Zone) (hz : ZoneOK z) (child : NameL.Name) (hcw : (unfold child).WF)
-    (ns : Zone.Rrset) (hne : ns.rdatas ≠ []) (s : State) (hi : W.I s) :
-    Safe W (doReferral z child ns) s (fun _ _ => True) := by
+    (ns : Zone.Rrset) (hne : ns.rdatas ≠ []) (s : PS) (hi : W.I s.w) :
+    SafeP W (doReferral z child ns) s (fun _ _ => True) := by
   unfold doReferral
-  refine safe_bind_PM W (safe_liftW W (safe_rrset_hv W .authority .none (unfold child) (T "NS") z.cls ns.ttl
-    ns.rdatas s hi hcw trivial hne)) (fun hv s1 hi1 _ hhv => ?_)
+  refine safe_bind_PM W (safe_addRrs W false .authority .none (unfold child) (T "NS") z.cls ns.ttl
+    ns.rdatas s hi hcw trivial hne) (fun hvo s1 hi1 _ hpost => ?_)
+  -- the vector whose entries are used: the one returned, or none at all
+  have hhv : HvOK W s1.w (hvo.getD []) (ns.rdatas.flatMap (rdataNames z.cls (T "NS"))) := by
+    cases hvo with
+    | none => intro i p h; simp at h
+    | some v => exact (hpost v rfl).1
   rcases classifyNs_cases (unfold child) ns.rdatas [] s1 with ⟨g, a, hc, hall, hparse⟩ | hc
   · simp only [List.length_nil, List.nil_append] at hc hall
-    -- the hint taken from the vector is valid for each classified name
-    have hint_ok : ∀ p ∈ g ++ a, ∀ s', HvOK W s' hv (ns.rdatas.flatMap (rdataNames z.cls (T "NS"))) →
-        p.2.WF ∧ HintOK W.Den s' (hintFrom hv p.1) p.2 := by
-      intro p hp s' hs'
+    have hint_ok : ∀ p ∈ g ++ a, ∀ w, HvOK W w (hvo.getD []) (ns.rdatas.flatMap (rdataNames z.cls (T "NS"))) →
+        p.2.WF ∧ HintOK W.Den w (hintFrom (hvo.getD []) p.1) p.2 := by
+      intro p hp w hs'
       obtain ⟨hwf, rd, hrd, hpr⟩ := hall p hp
       refine ⟨hwf, hintFrom_ok W hs' _ _ (fun n' hn' => ?_)⟩
       have hsing : ∀ rd ∈ ns.rdatas, ∃ n, rdataNames z.cls (T "NS") rd = [n] := by
         intro rd' hrd'
         obtain ⟨n, hn⟩ := hparse rd' hrd'
-        exact ⟨n, by rw [rdataNames_v0, shape_ns z.cls _ (Or.inr (Or.inr (Or.inr rfl)))]; simp [compNames, hn]⟩
+        exact ⟨n, by unfold rdataNames; rw [shape_ns z.cls _ (Or.inr (Or.inr (Or.inr rfl)))]; simp [compNames, hn]⟩
       obtain ⟨rd', hrd', hnames⟩ := flatMap_singletons_get _ _ hsing _ _ hn'
       rw [hrd] at hrd'; cases hrd'
-      rw [rdataNames_v0] at hnames
+      unfold rdataNames at hnames
       rw [shape_ns z.cls _ (Or.inr (Or.inr (Or.inr rfl)))] at hnames
       simp [compNames, hpr] at hnames
       exact hnames.symm
-    have prog : Safe W (do
-        g.forM (fun (p : Nat × WName) => PM.liftW (addAdditionalAddresses z (hintFrom hv p.1) p.2 true))
-        a.forM (fun (p : Nat × WName) =>
-          executeAllowingTruncation (addAdditionalAddresses z (hintFrom hv p.1) p.2 true)) : PM Unit) s1
-        (fun _ _ => True) := by
-      refine safe_bind_PM W (forM_safe W g _ (fun s' => HvOK W s' hv (ns.rdatas.flatMap (rdataNames z.cls (T "NS"))))
-        (fun _ _ h hm => h.mono W hm) (fun p hp s' hi' hs' => ?_) s1 hi1 hhv) (fun _ s2 hi2 _ hs2 => ?_)
-      · obtain ⟨hwf, hh⟩ := hint_ok p (List.mem_append.mpr (Or.inl hp)) s' hs'
-        exact safe_liftW W (addAdditionalAddresses_safe W z hz _ _ true s' hi' hwf hh)
-      · refine (forM_safe W a _ (fun s' => HvOK W s' hv (ns.rdatas.flatMap (rdataNames z.cls (T "NS"))))
-          (fun _ _ h hm => h.mono W hm) (fun p hp s' hi' hs' => ?_) s2 hi2 hs2).weaken W (fun _ _ _ _ _ => trivial)
-        obtain ⟨hwf, hh⟩ := hint_ok p (List.mem_append.mpr (Or.inr hp)) s' hs'
-        exact safe_executeAllowingTruncation W (addAdditionalAddresses_safe W z hz _ _ true s' hi' hwf hh)
-    refine safe_congr W ?_ prog
+    have prog : SafeP W (do
+        glueLoop z (hvo.getD []) false g
+        glueLoop z (hvo.getD []) true a : PM Unit) s1 (fun _ _ => True) := by
+      refine safe_bind_PM W (glueLoop_safe W z hz (hvo.getD []) false
+        (fun w => HvOK W w (hvo.getD []) (ns.rdatas.flatMap (rdataNames z.cls (T "NS"))))
+        (fun _ _ h hm => h.mono W hm) g
+        (fun p hp w hw => hint_ok p (List.mem_append.mpr (Or.inl hp)) w hw) s1 hi1 hhv)
+        (fun _ s2 hi2 _ hs2 => ?_)
+      exact (glueLoop_safe W z hz (hvo.getD []) true
+        (fun w => HvOK W w (hvo.getD []) (ns.rdatas.flatMap (rdataNames z.cls (T "NS"))))
+        (fun _ _ h hm => h.mono W hm) a
+        (fun p hp w hw => hint_ok p (List.mem_append.mpr (Or.inr hp)) w hw) s2 hi2 hs2).weaken W
+        (fun _ _ _ _ _ => trivial)
+    refine safeP_congr W ?_ prog
     simp only [PM.bind_apply, hc]
-  · unfold Safe
+  · unfold SafeP
     simp only [List.length_nil] at hc
     have e : ∀ (k : List (Nat × WName) × List (Nat × WName) → PM Unit),
         (classifyNs (unfold child) ns.rdatas 0 >>= k) s1 = (.err .servFail, s1) := by
@@ -546,13 +598,14 @@ theorem lookupAll_cases (z : Zone.Zone) (hz : ZoneOK z) (name : NameL.Name)
 
 /-! ### CNAME chains -/
 
-theorem shape_cname (cls : Nat) : V0.componentTypes cls (T "CNAME") = [.compressibleName] := by
+theorem shape_cname (cls : Nat) : componentTypes cls (T "CNAME") = [.compressibleName] := by
   have : T "CNAME" = 5 := by decide
   rw [this]
-  simp [V0.componentTypes_arms]
+  simp [componentTypes, componentsTable, armMatches, Gen.typeConsts, List.lookup]
 
 theorem rdataNames_cname (cls : Nat) (n : WName) (h : n.WF) : rdataNames cls (T "CNAME") n.wire = [n] := by
-  rw [rdataNames_v0, shape_cname]
+  unfold rdataNames
+  rw [shape_cname]
   have := parse_wire n h []
   simp only [List.append_nil] at this
   simp [compNames, this]
@@ -564,9 +617,9 @@ def ChainHint (s : State) (qname : WName) (os : List WName) : Prop :=
   | none => HintOK W.Den s .qname qname
 
 theorem followCname_safe (z : Zone.Zone) (hz : ZoneOK z) (qname : WName) (hq : qname.WF) (rrType : Nat) :
-    ∀ (fuel : Nat) (cn : Zone.Rrset) (os : List WName) (s : State), W.I s → (∀ o ∈ os, o.WF) →
-      ChainHint W s qname os →
-      Safe W (followCname z qname rrType fuel cn os) s (fun _ _ => True) := by
+    ∀ (fuel : Nat) (cn : Zone.Rrset) (os : List WName) (s : PS), W.I s.w → (∀ o ∈ os, o.WF) →
+      ChainHint W s.w qname os →
+      SafeP W (followCname z qname rrType fuel cn os) s (fun _ _ => True) := by
   intro fuel
   induction fuel with
   | zero => intro cn os s hi _ _; exact safe_fail_PM W _ s hi
@@ -588,20 +641,18 @@ theorem followCname_safe (z : Zone.Zone) (hz : ZoneOK z) (qname : WName) (hq : q
           have hcw : cname.WF := (parse_sound _ _ _ hp).1
           split
           · exact safe_fail_PM W _ s hi
-          · -- write the CNAME record
-            have hstep : ∀ (hint : Hint) (owner : WName), owner.WF → HintOK W.Den s hint owner →
-                Safe W (PM.liftW (addRrOp .answer hint owner (T "CNAME") z.cls cn.ttl cname.wire)) s
-                  (fun _ s' => HintOK W.Den s' .mostRecentNameInRdata cname) := by
+          · have hstep : ∀ (hint : Hint) (owner : WName), owner.WF → HintOK W.Den s.w hint owner →
+                SafeP W (PM.addRr1 .answer hint owner (T "CNAME") z.cls cn.ttl cname.wire) s
+                  (fun _ w' => HintOK W.Den w' .mostRecentNameInRdata cname) := by
               intro hint owner how hho
-              refine safe_liftW W ((safe_rr W .answer hint owner _ _ _ _ s hi how hho).weaken W
-                (fun _ s' _ _ h => h cname ?_))
+              refine (safe_addRr1 W .answer hint owner _ _ _ _ s hi how hho).weaken W
+                (fun _ w' _ _ h => h cname ?_)
               rw [rdataNames_cname z.cls cname hcw]; rfl
-            -- what follows it
-            have hrest : ∀ s1, W.I s1 → HintOK W.Den s1 .mostRecentNameInRdata cname →
-                Safe W (match Zone.lookup z (fold cname) rrType ⟨false, false⟩ with
+            have hrest : ∀ s1 : PS, W.I s1.w → HintOK W.Den s1.w .mostRecentNameInRdata cname →
+                SafeP W (match Zone.lookup z (fold cname) rrType ⟨false, false⟩ with
                   | .ok (.found found _) => do
-                    let hv ← PM.liftW (Server.withHv [] (addRrsetOp .answer .mostRecentNameInRdata cname rrType z.cls found.ttl found.rdatas))
-                    doAdditionalSectionProcessing z rrType found (some hv)
+                    let hv ← PM.addRrs false .answer .mostRecentNameInRdata cname rrType z.cls found.ttl found.rdatas
+                    doAdditionalSectionProcessing z rrType found hv
                   | .ok (.cname next _) =>
                     if os.length < Gen.MAX_CNAME_CHAIN_LEN - 1 then
                       followCname z qname rrType fuel next (os ++ [cname])
@@ -609,7 +660,7 @@ theorem followCname_safe (z : Zone.Zone) (hz : ZoneOK z) (qname : WName) (hq : q
                   | .ok (.referral child ns) => doReferral z child ns
                   | .ok (.noRecords _) => addNegativeCachingSoa z
                   | .ok .nxDomain => do
-                    PM.liftU (setRcode (RC "NXDOMAIN"))
+                    PM.setRcode (RC "NXDOMAIN")
                     addNegativeCachingSoa z
                   | .ok .wrongZone => pure ()
                   | .err _ => pure ()
@@ -619,10 +670,10 @@ theorem followCname_safe (z : Zone.Zone) (hz : ZoneOK z) (qname : WName) (hq : q
                 with ⟨h, _⟩ | ⟨r, sos, h, hne⟩ | ⟨r, sos, h, hne⟩ | ⟨c, ns, h, hne, hcwf⟩ | ⟨sos, h⟩ | h
               · rw [h]; exact safe_pure_PM W () s1 hi1 trivial
               · rw [h]
-                exact safe_bind_PM W (safe_liftW W (safe_rrset_hv W .answer .mostRecentNameInRdata cname rrType
-                  z.cls r.ttl r.rdatas s1 hi1 hcw hh1 hne))
-                  (fun hv s2 hi2 _ hhv => doAdditionalSectionProcessing_safe W z hz rrType r (some hv) s2 hi2
-                    (fun v hv' => by cases hv'; exact hhv))
+                exact safe_bind_PM W (safe_addRrs W false .answer .mostRecentNameInRdata cname rrType
+                  z.cls r.ttl r.rdatas s1 hi1 hcw hh1 hne)
+                  (fun hv s2 hi2 _ hhv => doAdditionalSectionProcessing_safe W z hz rrType r hv s2 hi2
+                    (fun v hv' => (hhv v hv').1))
               · rw [h]
                 simp only
                 split
@@ -635,7 +686,7 @@ theorem followCname_safe (z : Zone.Zone) (hz : ZoneOK z) (qname : WName) (hq : q
               · rw [h]; exact doReferral_safe W z hz c hcwf ns hne s1 hi1
               · rw [h]; exact addNegativeCachingSoa_safe W z hz s1 hi1
               · rw [h]
-                exact safe_bind_PM W (safe_liftW W (safe_setRcode W _ s1 hi1))
+                exact safe_bind_PM W (safe_hdr_setRcode W _ s1 hi1)
                   (fun _ s2 hi2 _ _ => addNegativeCachingSoa_safe W z hz s2 hi2)
             unfold ChainHint at hch
             cases hgl : os.getLast? with
@@ -676,61 +727,61 @@ theorem followCname_fuel (z : Zone.Zone) (qname : WName) (rrType : Nat) :
     · simp only [hl, if_false]
 
 theorem doCname_safe (z : Zone.Zone) (hz : ZoneOK z) (qname : WName) (hq : qname.WF) (cn : Zone.Rrset)
-    (rrType : Nat) (s : State) (hi : W.I s) (hh : HintOK W.Den s .qname qname) :
-    Safe W (doCname z qname cn rrType) s (fun _ _ => True) := by
+    (rrType : Nat) (s : PS) (hi : W.I s.w) (hh : HintOK W.Den s.w .qname qname) :
+    SafeP W (doCname z qname cn rrType) s (fun _ _ => True) := by
   unfold doCname
-  exact safe_bind_PM W (safe_liftW W (safe_setAa W true s hi))
+  exact safe_bind_PM W (safe_hdr_setAa W true s hi)
     (fun _ s1 hi1 hm _ => followCname_safe W z hz qname hq rrType _ cn [] s1 hi1
       (fun o ho => by cases ho) (hintOK_qname_mono W hh hm))
 
 /-! ### `answer`, `answer_any` -/
 
 theorem answer_safe (z : Zone.Zone) (hz : ZoneOK z) (qname : WName) (hq : qname.WF) (qtype : Nat)
-    (hsub : z.apex <:+ fold qname) (s : State) (hi : W.I s) (hh : HintOK W.Den s .qname qname) :
-    Safe W (answer z qname qtype) s (fun _ _ => True) := by
+    (hsub : z.apex <:+ fold qname) (s : PS) (hi : W.I s.w) (hh : HintOK W.Den s.w .qname qname) :
+    SafeP W (answer z qname qtype) s (fun _ _ => True) := by
   unfold answer
-  have aa : ∀ (k : PM Unit), (∀ s1, W.I s1 → Mono W.Den s s1 → Safe W k s1 (fun _ _ => True)) →
-      Safe W (do PM.liftU (setAa true); k : PM Unit) s (fun _ _ => True) := fun k hk =>
-    safe_bind_PM W (safe_liftW W (safe_setAa W true s hi)) (fun _ s1 hi1 hm _ => hk s1 hi1 hm)
+  have aa : ∀ (k : PM Unit), (∀ s1 : PS, W.I s1.w → Mono W.Den s.w s1.w → SafeP W k s1 (fun _ _ => True)) →
+      SafeP W (do PM.setAa true; k : PM Unit) s (fun _ _ => True) := fun k hk =>
+    safe_bind_PM W (safe_hdr_setAa W true s hi) (fun _ s1 hi1 hm _ => hk s1 hi1 hm)
   rcases lookup_cases z hz (fold qname) qtype ⟨true, false⟩ (fold_wf qname hq) (fun _ => hsub)
     with ⟨_, hu⟩ | ⟨r, sos, h, hne⟩ | ⟨r, sos, h, hne⟩ | ⟨c, ns, h, hne, hcwf⟩ | ⟨sos, h⟩ | h
   · cases hu
   · rw [h]
     exact aa _ (fun s1 hi1 hm =>
-      safe_bind_PM W (safe_liftW W (safe_rrset_hv W .answer .qname qname qtype z.cls r.ttl r.rdatas s1 hi1 hq
-        (hintOK_qname_mono W hh hm) hne))
-        (fun hv s2 hi2 _ hhv => doAdditionalSectionProcessing_safe W z hz qtype r (some hv) s2 hi2
-          (fun v hv' => by cases hv'; exact hhv)))
+      safe_bind_PM W (safe_addRrs W false .answer .qname qname qtype z.cls r.ttl r.rdatas s1 hi1 hq
+        (hintOK_qname_mono W hh hm) hne)
+        (fun hv s2 hi2 _ hhv => doAdditionalSectionProcessing_safe W z hz qtype r hv s2 hi2
+          (fun v hv' => (hhv v hv').1)))
   · rw [h]; exact doCname_safe W z hz qname hq r qtype s hi hh
   · rw [h]; exact doReferral_safe W z hz c hcwf ns hne s hi
   · rw [h]; exact aa _ (fun s1 hi1 _ => addNegativeCachingSoa_safe W z hz s1 hi1)
   · rw [h]
-    exact safe_bind_PM W (safe_liftW W (safe_setRcode W _ s hi))
-      (fun _ s1 hi1 _ _ => safe_bind_PM W (safe_liftW W (safe_setAa W true s1 hi1))
+    exact safe_bind_PM W (safe_hdr_setRcode W _ s hi)
+      (fun _ s1 hi1 _ _ => safe_bind_PM W (safe_hdr_setAa W true s1 hi1)
         (fun _ s2 hi2 _ _ => addNegativeCachingSoa_safe W z hz s2 hi2))
 
 theorem answerAnyLoop_safe (z : Zone.Zone) (qname : WName) (hq : qname.WF) :
-    ∀ (rrsets : List Zone.Rrset) (n : Nat) (s : State), W.I s → HintOK W.Den s .qname qname →
+    ∀ (rrsets : List Zone.Rrset) (n : Nat) (s : PS), W.I s.w → HintOK W.Den s.w .qname qname →
       (∀ r ∈ rrsets, r.rdatas ≠ []) →
-      Safe W (answerAnyLoop z qname rrsets n) s (fun _ _ => True) := by
+      SafeP W (answerAnyLoop z qname rrsets n) s (fun _ _ => True) := by
   intro rrsets
   induction rrsets with
   | nil => intro n s hi _ _; exact safe_pure_PM W n s hi trivial
   | cons r rest ih =>
     intro n s hi hh hne
     unfold answerAnyLoop
-    exact safe_bind_PM W (safe_liftW W (safe_rrset W .answer .qname qname r.rtype z.cls r.ttl r.rdatas s hi hq hh
-      (hne r (by simp))))
+    exact safe_bind_PM W (safe_addRrs W false .answer .qname qname r.rtype z.cls r.ttl r.rdatas s hi hq hh
+      (hne r (by simp)))
       (fun _ s1 hi1 hm _ => ih (n + 1) s1 hi1 (hintOK_qname_mono W hh hm) (fun x hx => hne x (by simp [hx])))
 
 theorem answerAny_safe (z : Zone.Zone) (hz : ZoneOK z) (qname : WName) (hq : qname.WF)
-    (hsub : z.apex <:+ fold qname) (s : State) (hi : W.I s) (hh : HintOK W.Den s .qname qname) :
-    Safe W (answerAny z qname) s (fun _ _ => True) := by
+    (hsub : z.apex <:+ fold qname) (s : PS) (hi : W.I s.w) (hh : HintOK W.Den s.w .qname qname) :
+    SafeP W (answerAny z qname) s (fun _ _ => True) := by
   unfold answerAny
   rcases lookupAll_cases z hz (fold qname) (fold_wf qname hq) hsub
     with ⟨rrsets, sos, h, hne⟩ | ⟨c, ns, h, hne, hcwf⟩ | h
   · rw [h]
-    refine safe_bind_PM W (safe_liftW W (safe_setAa W true s hi)) (fun _ s1 hi1 hm _ => ?_)
+    refine safe_bind_PM W (safe_hdr_setAa W true s hi) (fun _ s1 hi1 hm _ => ?_)
     refine safe_bind_PM W (answerAnyLoop_safe W z qname hq rrsets 0 s1 hi1 (hintOK_qname_mono W hh hm) hne)
       (fun n s2 hi2 _ _ => ?_)
     split
@@ -738,43 +789,65 @@ theorem answerAny_safe (z : Zone.Zone) (hz : ZoneOK z) (qname : WName) (hq : qna
     · exact safe_pure_PM W () s2 hi2 trivial
   · rw [h]; exact doReferral_safe W z hz c hcwf ns hne s hi
   · rw [h]
-    exact safe_bind_PM W (safe_liftW W (safe_setRcode W _ s hi))
-      (fun _ s1 hi1 _ _ => safe_bind_PM W (safe_liftW W (safe_setAa W true s1 hi1))
+    exact safe_bind_PM W (safe_hdr_setRcode W _ s hi)
+      (fun _ s1 hi1 _ _ => safe_bind_PM W (safe_hdr_setAa W true s1 hi1)
         (fun _ s2 hi2 _ _ => addNegativeCachingSoa_safe W z hz s2 hi2))
 
 /-! ### `handle_non_axfr_query`, `handle_query` -/
 
-theorem clearRrs_apply (s : State) : (clearRrs s).1 = .ok () := rfl
+/-- no panic and the writer invariant again, on the writer plus the ghost log -/
+def SafeP0 {ε α : Type} (f : PS → Out ε α × PS) (s : PS) : Prop :=
+  (f s).1 ≠ .panic ∧ W.I (f s).2.w
 
-theorem handleNonAxfrQuery_safe (z : Zone.Zone) (hz : ZoneOK z) (qname : WName) (hq : qname.WF)
-    (qtype : Nat) (tr : Transport) (hsub : z.apex <:+ fold qname) (s : State) (hi : W.I s)
-    (hh : HintOK W.Den s .qname qname) : Safe0 W (handleNonAxfrQuery z qname qtype tr) s := by
-  have hres : Safe W (fun s => if qtype = QT "ANY" then answerAny z qname s else answer z qname qtype s) s
+theorem clearRrs_apply (s : State) : Writer.clearRrs s = (.ok (), (Writer.clearRrs s).2) := rfl
+
+theorem safeP0_clearRrs (s : PS) (hi : W.I s.w) : SafeP0 W PM.clearRrs s := by
+  unfold SafeP0 PM.clearRrs PM.hdrOp
+  rw [clearRrs_apply]
+  exact ⟨by simp, W.clearRrs_I s.w hi⟩
+
+theorem safeP0_bind {α β : Type} {x : PM α} {g : α → PM β} {s : PS}
+    (hx : (x s).1 ≠ .panic ∧ W.I (x s).2.w) (hg : ∀ a s', W.I s'.w → SafeP0 W (g a) s') :
+    SafeP0 W (x >>= g) s := by
+  obtain ⟨h1, h2⟩ := hx
+  unfold SafeP0
+  rw [PM.bind_apply]
+  generalize x s = r at h1 h2
+  obtain ⟨o, s'⟩ := r
+  cases o with
+  | ok a => exact hg a s' h2
+  | err e => exact ⟨by simp, h2⟩
+  | panic => exact absurd rfl h1
+
+theorem SafeP.safeP0 {ε α : Type} {f : PS → Out ε α × PS} {s : PS} {Q : α → State → Prop}
+    (h : SafeP W f s Q) : SafeP0 W f s := ⟨h.1, h.2.1⟩
+
+theorem handleNonAxfrQueryL_safe (z : Zone.Zone) (hz : ZoneOK z) (qname : WName) (hq : qname.WF)
+    (qtype : Nat) (tr : Transport) (hsub : z.apex <:+ fold qname) (s : PS) (hi : W.I s.w)
+    (hh : HintOK W.Den s.w .qname qname) : SafeP0 W (handleNonAxfrQueryL z qname qtype tr) s := by
+  have hres : SafeP W (fun s => if qtype = QT "ANY" then answerAny z qname s else answer z qname qtype s) s
       (fun _ _ => True) := by
-    unfold Safe
+    unfold SafeP
     dsimp only
     split
     · exact answerAny_safe W z hz qname hq hsub s hi hh
     · exact answer_safe W z hz qname hq qtype hsub s hi hh
   obtain ⟨h1, h2, _, _⟩ := hres
   dsimp only at h1 h2
-  -- the two epilogues
-  have clear : ∀ s', W.I s' → Safe0 W clearRrs s' := fun s' hi' =>
-    ⟨by rw [clearRrs_apply]; simp, W.clearRrs_I s' hi'⟩
-  have ep1 : ∀ s', W.I s' → Safe0 W (do setAa false; setRcode (RC "SERVFAIL"); clearRrs : M Unit) s' :=
-    fun s' hi' => safe_bind0_M W (safe_setAa W false s' hi') (fun _ s1 hi1 _ _ =>
-      safe_bind0_M W (safe_setRcode W _ s1 hi1) (fun _ s2 hi2 _ _ => clear s2 hi2))
-  have ep2 : ∀ s', W.I s' → Safe0 W (do
-      clearRrs
-      if tr = Transport.tcp then do setAa false; setRcode (RC "SERVFAIL")
-      else setTc true : M Unit) s' := fun s' hi' =>
-    safe0_bind_M W (Q := fun _ _ => True) ⟨(clear s' hi').1, (clear s' hi').2, fun _ _ => trivial⟩
-      (fun _ s1 hi1 _ => by
-        split
-        · exact (safe_bind_M W (safe_setAa W false s1 hi1)
-            (fun _ s2 hi2 _ _ => safe_setRcode W _ s2 hi2)).safe0
-        · exact (safe_setTc W true s1 hi1).safe0)
-  unfold Safe0 handleNonAxfrQuery
+  have ep1 : ∀ s' : PS, W.I s'.w →
+      SafeP0 W (do PM.setAa false; PM.setRcode (RC "SERVFAIL"); PM.clearRrs : PM Unit) s' :=
+    fun s' hi' => safeP0_bind W (safe_hdr_setAa W false s' hi').safeP0 (fun _ s1 hi1 =>
+      safeP0_bind W (safe_hdr_setRcode W _ s1 hi1).safeP0 (fun _ s2 hi2 => safeP0_clearRrs W s2 hi2))
+  have ep2 : ∀ s' : PS, W.I s'.w → SafeP0 W (do
+      PM.clearRrs
+      if tr = Transport.tcp then do PM.setAa false; PM.setRcode (RC "SERVFAIL")
+      else PM.setTc true : PM Unit) s' := fun s' hi' =>
+    safeP0_bind W (safeP0_clearRrs W s' hi') (fun _ s1 hi1 => by
+      split
+      · exact (safe_bind_PM W (safe_hdr_setAa W false s1 hi1)
+          (fun _ s2 hi2 _ _ => safe_hdr_setRcode W _ s2 hi2)).safeP0
+      · exact (safe_hdr_setTc W true s1 hi1).safeP0)
+  unfold SafeP0 handleNonAxfrQueryL
   dsimp only
   generalize (if qtype = QT "ANY" then answerAny z qname s else answer z qname qtype s) = res at h1 h2
   obtain ⟨o, s'⟩ := res
@@ -785,6 +858,18 @@ theorem handleNonAxfrQuery_safe (z : Zone.Zone) (hz : ZoneOK z) (qname : WName) 
     cases e with
     | servFail => exact ep1 s' h2
     | truncation => exact ep2 s' h2
+
+theorem handleNonAxfrQuery_safe (z : Zone.Zone) (hz : ZoneOK z) (qname : WName) (hq : qname.WF)
+    (qtype : Nat) (tr : Transport) (hsub : z.apex <:+ fold qname) (s : State) (hi : W.I s)
+    (hh : HintOK W.Den s .qname qname) : Safe0 W (handleNonAxfrQuery z qname qtype tr) s := by
+  obtain ⟨h1, h2⟩ := handleNonAxfrQueryL_safe W z hz qname hq qtype tr hsub { w := s } hi hh
+  unfold Safe0 handleNonAxfrQuery
+  generalize handleNonAxfrQueryL z qname qtype tr { w := s } = res at h1 h2
+  obtain ⟨o, s'⟩ := res
+  cases o with
+  | panic => exact absurd rfl h1
+  | ok u => exact ⟨by simp, h2⟩
+  | err e => exact ⟨by simp, h2⟩
 
 /-- what the library API guarantees about a configuration: each catalog entry is filed under
     the apex of its zone (`Entry::Loaded(zone)`: `entry.name() = zone.name()`), apexes are names,
